@@ -276,25 +276,42 @@ def bind_stubs(mod):
     npx.log10 = mx.log10.__get__(mx)
     mod.__dict__["np"] = npx
     mod.__dict__["random"] = S.RandomStub("random")
-    if "LERP" in mod.__dict__:
-        pass            # LERP is real generated code operating on concrete points; symbolic y-values flow through it
+    # LERP stays the real generated code; only the names it resolves are stubbed
+    mod.__dict__["interp1d"] = S._Interp1d
+    mod.__dict__["float"] = S.sym_float
     return mx
 
 
 STUB_NAMES = ["<generated module>.max", "<generated module>.min", "<generated module>.sum", "<generated module>.math",
-              "<generated module>.np", "<generated module>.random"]
+              "<generated module>.np", "<generated module>.random", "<generated module>.interp1d", "<generated module>.float"]
 
 
 def find_keys(model, probes, t):
-    """identify the equation keys of leaves by their unique probe constants (no copy of the sanitiser)"""
+    """identify the equation keys of leaves by their unique probe constants (no copy of the sanitiser);
+    only equations that are plain constants qualify (their evaluation does not consult any other equation)"""
     out = {}
-    for key, fn in model.equations.items():
-        try:
-            v = fn(t)
-        except Exception:
-            continue
-        if isinstance(v, (int, float)) and not isinstance(v, bool):
-            for leaf, pv in probes.items():
-                if v == pv and leaf not in out:
-                    out[leaf] = key
+    calls = [0]
+    orig = model.memoize
+
+    def counting(equation, arg):
+        calls[0] += 1
+        return orig(equation, arg)
+    model.memoize = counting
+    try:
+        for key, fn in model.equations.items():
+            calls[0] = 0
+            try:
+                v = fn(t)
+            except Exception:
+                continue
+            if calls[0]:
+                continue
+            if isinstance(v, (int, float)) and not isinstance(v, bool):
+                for leaf, pv in probes.items():
+                    if v == pv and leaf not in out:
+                        out[leaf] = key
+    finally:
+        del model.memoize
+    for k_ in model.memo:
+        model.memo[k_] = {}
     return out
